@@ -126,6 +126,11 @@ pub trait Monitor {
     fn shrink(&mut self, _case: &Case) -> Vec<Case> {
         vec![]
     }
+    /// fine-grained signature of a (shrunk) failing case: used for de-duplication and for matching
+    /// known findings; computed after shrinking, so it may look at the minimal witness
+    fn classify(&mut self, _case: &Case, signature: &str) -> String {
+        signature.to_string()
+    }
     /// counters that must reach a minimum for the run to count (else exit 2, inconclusive)
     fn floors(&self, _tier: Tier) -> Vec<(String, u64)> {
         vec![]
@@ -386,8 +391,9 @@ pub fn worker_main(mon: &mut dyn Monitor, args: WorkArgs) -> i32 {
                 let base = narrowed.unwrap_or_else(|| case.clone());
                 // shrinking may be slow: no watchdog while shrinking (bounded by its own timer)
                 let (shrunk, sdetail, steps) = shrink_case(mon, &base, &signature, Duration::from_secs(20));
+                let fine = guarded(|| mon.classify(&shrunk, &signature)).unwrap_or_else(|_| signature.clone());
                 let rec = json!({
-                    "index": index, "signature": signature,
+                    "index": index, "signature": fine, "coarse_signature": signature,
                     "detail": if sdetail.is_empty() { detail.clone() } else { sdetail },
                     "original_detail": detail,
                     "case": base, "shrunk": shrunk, "shrink_steps": steps, "kind": "verdict",
@@ -422,7 +428,10 @@ pub fn replay_case(mon: &mut dyn Monitor, case: &Case) -> Value {
     match v {
         Verdict::Held => json!({"verdict": "held"}),
         Verdict::Discard(r) => json!({"verdict": "discard", "reason": r}),
-        Verdict::Violated { signature, detail, .. } => json!({"verdict": "violated", "signature": signature, "detail": detail}),
+        Verdict::Violated { signature, detail, .. } => {
+            let fine = guarded(|| mon.classify(case, &signature)).unwrap_or_else(|_| signature.clone());
+            json!({"verdict": "violated", "signature": fine, "detail": detail})
+        }
     }
 }
 
